@@ -1,23 +1,14 @@
-"""Per-check configuration for bin/check."""
+"""Per-check configuration for bin/check: every harness/checks/<id>/check.json."""
+import glob, json, os
 
-CHECKS = {
-    "C20": {
-        "race": False,
-        "shards": {"quick": 4, "thorough": 16},
-        "level": "exploration",
-        "technique": "runtime monitor: substring oracle on ElideError/ElideAddr output over generated error trees and errors produced by the standard library",
-        "level_text": "Exploration: every chain of <=3 (quick) / <=4 (thorough) wrappers of 20 kinds around 25 leaf kinds is enumerated completely, deeper chains and address strings are sampled by PRNG, and errors built by the real net package (dial syntax errors, refused connects, Go resolver over a scripted failing transport) are included; the oracle is exact (secret tokens are unique strings). Right level: the function is pure, so the only uncertainty is which inputs were tried.",
-        "level_note": "Trusts that distinctive tokens cannot appear in the output by accident; error types outside the standard library are not generated.",
-        "require_counters": ["trees_with_secrets", "controls_secret_visible_in_original", "real_errors", "addr_strings"],
-        "assumptions": [
-            "secret tokens are placed only in the address-bearing fields of the standard error types (and, for errors produced by the standard library itself, wherever net put them)",
-            "ports and operation/cause words may remain, as the property allows",
-        ],
-    },
-}
+_here = os.path.dirname(os.path.dirname(os.path.abspath(__file__)))
+CHECKS = {}
+for _f in sorted(glob.glob(os.path.join(_here, "harness", "checks", "*", "check.json"))):
+    _id = os.path.basename(os.path.dirname(_f)).upper()
+    CHECKS[_id] = json.load(open(_f))
 
 # /repo commits that add tag-guarded hook files (MANIFEST.hooks.source_commits)
-HOOK_COMMITS = []
+HOOK_COMMITS = ["e85958d"]
 
 # properties this technique family cannot decide (none so far)
 NOT_APPLICABLE = {}
